@@ -36,6 +36,10 @@ RULE = (
     "the converter with >= 1 probe located / string with >= 1 XML metacharacter"
 )
 XP = {"a": "/data/a", "b2": "/data/b2"}
+import re as _re
+
+# `indexed-repeat(` … `)` with a line break inside the parentheses (F46)
+RE_IR_MULTILINE = _re.compile(r"indexed-repeat\([^)]*\n[^)]*\)")
 
 
 # ------------------------------------------------------------------ oracle on one form
@@ -127,13 +131,17 @@ def check_form(ctx, form, probes, tag="gen", expect_reject=False, r=None, env_na
                 ctx.fail(Failure("reparse-crash", f"re-parse of the mixed channel failed: {r['msg']}", case, signature=sig))
                 ctx.record({"form": form}, True)
                 return None
-        if not expect_reject and tag in ("gen", "env") and probes:
+        if not expect_reject and tag in ("gen", "env", "directed") and probes:
             # user text must not decide whether the form converts: the same form with benign texts
             ph0 = F.with_cells(form, probes, lambda p: F.placeholder_parts(p["parts"]))
             r0 = impl.run(ph0)
             if r0["ok"]:
+                sig = f"text-changes-outcome:{r['class']}:{r.get('site', '')}"
+                if r.get("site") == "survey.py:_is_return_relative_path" and r.get("exc") == "AttributeError" and any(
+                        RE_IR_MULTILINE.search(F.cell_text(p["parts"])) for p in probes):
+                    sig = "text-changes-outcome:indexed-repeat-multiline"
                 ctx.fail(Failure("text-changes-outcome", f"the form is {r['class']} ({r.get('msg')}) although the same form with benign texts converts",
-                                 case, signature=f"text-changes-outcome:{r['class']}:{r.get('site', '')}"))
+                                 case, signature=sig))
                 ctx.record({"form": form}, True)
                 return None
         ctx.record({"form": form}, False)
@@ -395,6 +403,9 @@ def directed(ctx):
                 continue
             one([["t", f"a{c}b"]], chan=chan, expect_reject=True)
     one([["t", "a\x01b "], ["r", "a"], ["t", " c"]], expect_reject=True)
+    # F46: text that mentions indexed-repeat( … ) over several lines next to a reference
+    one([["t", "see indexed-repeat(x,\n"], ["r", "a"], ["t", ") z"]], chan="hint")
+    one([["t", "indexed-repeat(x, y, 1) "], ["r", "a"], ["t", " same line"]], chan="label")
     # a question name with a declared namespace prefix: every channel of that question, 0-2 languages (F41 lives here)
     for langs in ([], ["en"], ["en", "fr"]):
         row = {"type": "text", "name": "ex:q"}
@@ -554,6 +565,7 @@ MATCHERS = {
     # (9bea19c character check before the re-parse), F41-guidance-prefixed-name (ac4d9ef rpartition in Survey.itext)
     "F15-instance-op-swallow": lambda f: f.signature in ("structure:instance-op-swallow", "not-recovered:instance-op-swallow", "shape:instance-op-swallow"),
     "F39-instance-double-escape": lambda f: f.signature in ("structure:instance-double-escape", "not-recovered:instance-double-escape", "shape:instance-double-escape"),
+    "F46-indexed-repeat-multiline-crash": lambda f: f.signature == "text-changes-outcome:indexed-repeat-multiline",
     "F40-instance-hidden-by-quote": lambda f: f.signature in ("structure:instance-hidden-by-quote", "not-recovered:instance-hidden-by-quote", "shape:instance-hidden-by-quote"),
 }
 
